@@ -59,6 +59,7 @@ type afEntry struct {
 	Auth          afStr `json:"auth"`
 	IdentityToken afStr `json:"identitytoken"`
 	RegistryToken afStr `json:"registrytoken"`
+	Email         afStr `json:"email"` // a field that carries no credentials (the code under test does not know it)
 }
 
 type afHelperRef struct {
@@ -106,6 +107,7 @@ func (c *afCfg) render() ([]byte, error) {
 		put("auth", a.Auth)
 		put("identitytoken", a.IdentityToken)
 		put("registrytoken", a.RegistryToken)
+		put("email", a.Email)
 		if _, dup := auths[string(a.Key)]; dup {
 			return nil, fmt.Errorf("duplicate auths key %q", a.Key)
 		}
@@ -537,7 +539,10 @@ func afRandCase(rnd *rand.Rand) afCase {
 		seen[k] = true
 		e := afEntry{Key: afStr(k)}
 		tag := fmt.Sprint(i)
-		switch rnd.Intn(12) {
+		switch rnd.Intn(15) {
+		case 12, 13: // {}: the placeholder docker leaves behind next to a credsStore
+		case 14:
+			e.Email = afStr("e" + tag + "@x")
 		case 0, 1, 2:
 			e.Username, e.Password = afStr("u"+tag), afStr("p"+tag)
 		case 3, 4, 5:
